@@ -262,6 +262,8 @@ def callsites(chk, repo, it0, ms, md, S, D):
     def branch_hook(itp, st, v, fr):
         if isinstance(v, Opaque) and v.name == 'isinstance':
             return False    # isinstance(x, np.ndarray) on a symbolic scalar: the scalar path (array inputs have their own pass)
+        if isinstance(v, Opaque) and v.name.startswith('tolerance test'):
+            return False    # np.allclose / np.isclose of two independent symbolic inputs: the generic state, in which they differ (the binding rule is about that path)
         return None         # everything else: sign domain, then forked, else the analysis fails closed
 
     it = Interp(repo, hooks={'call': call_hook, 'branch': branch_hook}, max_depth=10)
